@@ -163,6 +163,18 @@ CLAIMED = {
              "clauses hold to quadrature accuracy (measured). Known finding F20 (circularize border pixels, ref_angle=None).",
         technique="Lean 4 proof (Complex.arg, finite-sum algebra, telescoping induction) + differential correspondence",
         design="§3 C19"),
+    "C18": dict(
+        text="Lean 4: (1) soundness theorem for a points-to certificate check over an effect IR (share / write / call / callret): "
+             "in every execution of a unit's statements (any order, repetition, subset; callees within their summaries) a "
+             "parameter not listed as written is never modified in place; (2) the IR and certificates are regenerated from "
+             "/repo by an AST translator on every run and the certificates for all 136 functions/classes are accepted by the "
+             "kernel; (3) the only possibly-written parameters of public functions are number-valued; (4) no public function "
+             "returns an object sharing memory with a module cache. Runtime: ~90 public callables with argument snapshots, "
+             "read-only / strided / float32 / integer arguments, repeated calls, scribbled results, fresh processes.",
+        note="Trusted: Lean kernel + standard axioms; gen_effects.py (AST → IR, NumPy view/mutator tables); the IR semantics; "
+             "dynamic features invisible to the AST walk are covered by the runtime suite only; NumPy/SciPy determinism.",
+        technique="Lean 4 proof (invariant over an abstract heap) + certificate checking by decide +kernel over a generated IR + runtime differential",
+        design="§3 C18"),
 }
 
 NOT_YET = "check not built yet in this session (planned, see DESIGN.md §3); not claimed until its theorems and correspondence run"
